@@ -313,6 +313,27 @@ class Exporter:
                 if sorted(vals2) != sorted(vals) or hdr2.get('MOCORDER') != hdr.get('MOCORDER') or hdr2.get('ORDERING') != hdr.get('ORDERING'):
                     problems.append(('mim', f'MIMAS.mim2fits of the saved region differs from write_fits: {vals2[:5]} order '
                                             f'{hdr2.get("MOCORDER")} vs {vals[:5]} order {hdr.get("MOCORDER")}'))
+                # the same conversion through the command line (MIMAS --mim2fits in.mim out.fits, all other options at their defaults)
+                from AegeanTools.CLI import MIMAS as mimas_cli
+                f3 = os.path.join(self.work, f'r{self.n}_c.fits')
+                rc_ = mimas_cli.main(['--mim2fits', mpath, f3])
+                if rc_ != 0 or not os.path.exists(f3):
+                    problems.append(('mim', f'MIMAS --mim2fits returned {rc_} / wrote no file'))
+                else:
+                    hdr3, vals3 = read_moc(f3)
+                    if sorted(vals3) != sorted(vals) or hdr3.get('MOCORDER') != hdr.get('MOCORDER') or hdr3.get('ORDERING') != hdr.get('ORDERING'):
+                        problems.append(('mim', f'MIMAS --mim2fits (command line) of the saved region differs from write_fits: {len(vals3)} cells '
+                                                f'order {hdr3.get("MOCORDER")} vs {len(vals)} cells order {hdr.get("MOCORDER")}'))
+                if do_reg:
+                    g3 = os.path.join(self.work, f'r{self.n}_c.reg')
+                    rc_ = mimas_cli.main(['--mim2reg', mpath, g3])
+                    l3 = None
+                    if rc_ == 0 and os.path.exists(g3):
+                        with open(g3) as fh:
+                            l3 = [ln.rstrip('\n') for ln in fh if ln.strip()]
+                    if l3 is None or sorted(l3) != sorted(reg_lines):
+                        problems.append(('mim', f'MIMAS --mim2reg (command line) of the saved region differs from write_reg: '
+                                                f'{None if l3 is None else len(l3)} vs {len(reg_lines)} lines'))
                 if do_reg:
                     g2 = os.path.join(self.work, f'r{self.n}_m.reg')
                     MIMAS.mim2reg(mpath, g2)
